@@ -85,7 +85,9 @@ def main():
     )
 
     plotting.predicted_vs_observed_scatterplot(
-        me, os.path.join(args.output_dir, "predicted_vs_observed_scatterplot.pdf")
+        me,
+        os.path.join(args.output_dir, "predicted_vs_observed_scatterplot.pdf"),
+        seed=args.seed,
     )
 
     plotting.predicted_vs_observed_scatterplot_per_sample(
@@ -93,6 +95,7 @@ def main():
         os.path.join(
             args.output_dir, "predicted_vs_observed_by_sample_scatterplot.pdf"
         ),
+        seed=args.seed,
     )
 
     plotting.per_sample_violin_plot(
